@@ -609,6 +609,29 @@ func run(r *eng.Runner) {
 			return !r.Stopped()
 		})
 	}
+	// the options are on for the whole set: the text of the base template of an executed child, and of the body of an
+	// imported macro, is text after / before block tags like any other
+	r.Group("options-foreign-text", "c15.doc", "W a W C W b W (W over 5 runs, no dash markers) written in the BASE template of an executed child and in the body of an imported macro, TrimBlocks / LStripBlocks switched on on the set (3 settings): equal to the hand-stripped base / library")
+	for _, c := range cs {
+		enum.Tuples(len(w2), 4, func(wi []int) bool {
+			var doc []item
+			doc = append(doc, item{text: w2[wi[0]] + "a" + w2[wi[1]]})
+			doc = append(doc, c.items(flags(0, c.nd), "\n ", " \n")...)
+			doc = append(doc, item{text: w2[wi[2]] + "b" + w2[wi[3]]})
+			base := append([]item{{text: "["}}, doc...)
+			base = append(base, item{tag: "block z", block: true}, item{text: "z"}, item{tag: "endblock", block: true}, item{text: "]"})
+			child := `{% extends "base" %}{% block z %}Z{% endblock %}`
+			lib := append([]item{{tag: "macro m() export", block: true}}, doc...)
+			lib = append(lib, item{tag: "endmacro", block: true})
+			main := `{% import "lib" m %}[{{ m() }}]`
+			for opt := 1; opt < 4; opt++ {
+				tb, ls := opt&1 != 0, opt&2 != 0
+				r.Do(&DocCase{Src: eng.Q(child), Twin: eng.Q(child), Kind: "options-base:" + c.name, Base: eng.Q(source(base)), TwinBase: eng.Q(source(handStrip(base, tb, ls))), TrimBlocks: tb, LStrip: ls})
+				r.Do(&DocCase{Src: eng.Q(main), Twin: eng.Q(main), Kind: "options-lib:" + c.name, Lib: eng.Q(source(lib)), TwinLib: eng.Q(source(handStrip(lib, tb, ls))), TrimBlocks: tb, LStrip: ls})
+			}
+			return !r.Stopped()
+		})
+	}
 	// ExecuteBlocks: a block of the child and a block only the base has, both with whitespace, options on the set
 	r.Group("execute-blocks", "c15.doc", "ExecuteBlocks on a child for its own block and a block only the base defines, both holding W a W C W b W (W over 5 runs, dash subsets none / all / alternating), options on the set (3 settings): each block equals the block of the hand-stripped templates")
 	for _, c := range cs {
